@@ -129,7 +129,14 @@ func (s *Server) serveGated(req *http.Request, actor string, rd ResourceDef, pr 
 	}
 	var p *Pending
 	if stepped {
-		p = &Pending{Actor: actor, Verb: verb, ResKey: rd.ResKey(), NS: pr.ns, Name: pr.name,
+		pname := pr.name
+		if verb == "create" {
+			var tmp Obj
+			if json.Unmarshal(body, &tmp) == nil {
+				pname = metaStr(tmp, "name")
+			}
+		}
+		p = &Pending{Actor: actor, Verb: verb, ResKey: rd.ResKey(), NS: pr.ns, Name: pname,
 			release: make(chan struct{}), done: make(chan struct{})}
 		ch <- p
 		<-p.release
